@@ -130,6 +130,30 @@ mod k {
         );
     }
 
+    /// VERIF: {"p":"C16","tier":"quick","fns":["dns::bucket::GenericTokenBucket::check","dns::bucket::GenericTokenBucket::deplete"],"bounds":"any bucket state not ahead of the clock by more than 2^16 s, any clock >= B/R below 2^31, two replies of any cost <= 131070 that BOTH passed check before either was charged (the check-then-deplete interleaving IpRateLimiter::check allows), charged at a later instant <= 60 s on","oracle":"the debt of every granted reply is recorded in full: the bucket's empty-since stamp ends at max(stamp, now - B/R) + ceil(c1/R) + ceil(c2/R) or later, so overdraft is carried forward and the long-run rate stays R whatever the interleaving","stubs":["Clock = harness clock"],"covers":2}
+    #[kani::proof]
+    fn c16_overdraft_is_carried_forward() {
+        let s0: u32 = kani::any();
+        let now: u32 = kani::any();
+        let later: u32 = kani::any();
+        let c1: u32 = kani::any();
+        let c2: u32 = kani::any();
+        kani::assume(now as u64 >= B / R && now < (1 << 31) && later >= now && later - now <= 60);
+        kani::assume(s0 <= now + 65536);
+        kani::assume(c1 <= 131070 && c2 <= 131070);
+        let mut b = GenericTokenBucket(s0);
+        set_now(now);
+        kani::assume(b.check::<VClock>(c1) && b.check::<VClock>(c2));
+        set_now(later);
+        b.deplete::<VClock>(c1);
+        b.deplete::<VClock>(c2);
+        let base = std::cmp::max(s0 as u64, later as u64 - B / R);
+        let debt = (c1 as u64).div_ceil(R) + (c2 as u64).div_ceil(R);
+        kani::cover!(base + debt > later as u64, "overdrawn: the stamp lies in the future");
+        kani::cover!(c1 > 0 && c2 > 0 && s0 > now - (B / R) as u32, "partly filled bucket");
+        assert!(b.0 as u64 >= base + debt, "both charges recorded in full (overdraft carried forward)");
+    }
+
     /// VERIF: {"p":"C16","tier":"quick","fns":["dns::bucket::GenericTokenBucket::new","dns::bucket::GenericTokenBucket::check"],"bounds":"fresh bucket, any u32 clock >= B/R","oracle":"the very first refused query from a source is answered","stubs":["Clock = harness clock"],"covers":1}
     #[kani::proof]
     fn c16_fresh_bucket_grants_min_cost() {
